@@ -2,7 +2,7 @@
 """
 C12 Stereo signs are permutation-consistent (table clauses proved; ladders, mark parity, label lifecycle decided).
 """
-from ..r_stereo import rule_tetrahedron_table, rule_alkene_table, rule_ladders, rule_stereo_cache_set
+from ..r_stereo import rule_tetrahedron_table, rule_alkene_table, rule_ladders, rule_stereo_cache_set, rule_distinctness_predicates
 from ..r_codebooks import rule_mark_parity
 from ..r_protocol import run_protocol
 from ..r_alias import rule_no_stale_alias, rule_fix_stereo_exit, rule_row_order
@@ -13,7 +13,7 @@ LEVEL = 'other'
 def run(ck, repo):
     ck.assumptions += ['parity convention: value True in a translate table means "sign flips"; the identity order keeps the sign']
     ck.undecided += ['geometric sign functions (_pyramid_sign, _cis_trans_sign, _allene_sign): numerical',
-                     'detection of stereogenic / chiral centres (graph symmetry): runtime graph reasoning',
+                     'detection of stereogenic units and their symmetry ranks (graph symmetry): runtime graph reasoning; only the definitional both-ends-distinct predicates are decided',
                      'agreement with an independent toolkit on concrete molecules: needs that toolkit as oracle']
     rule_tetrahedron_table(ck, repo)
     table = rule_alkene_table(ck, repo)
@@ -25,3 +25,4 @@ def run(ck, repo):
     rule_row_order(ck, repo, 'C12.D5-row-order')
     # labels are kept only on centres that are stereogenic: every structural change reaches fix_stereo
     run_protocol(ck, repo, 'C12.D5-fix_stereo-reached', only_dims={'STEREO'})
+    rule_distinctness_predicates(ck, repo, 'C12.D6-distinctness-predicates')
